@@ -550,8 +550,8 @@ func (in *Interp) visit(fr *Frame, instr ssa.Instruction) {
 		fr.set(in, instr, Ptr{&o.Cells[0], o})
 	case *ssa.MakeSlice:
 		et := instr.Type().Underlying().(*types.Slice).Elem()
-		n := in.concIndex(fr.get(in, instr.Len).(Sc), 1<<40, "makeslice")
-		c := in.concIndex(fr.get(in, instr.Cap).(Sc), 1<<40, "makeslice")
+		n := in.concIndex(in.to64(fr.get(in, instr.Len), instr.Len.Type()), 1<<40, "makeslice")
+		c := in.concIndex(in.to64(fr.get(in, instr.Cap), instr.Cap.Type()), 1<<40, "makeslice")
 		if c < n {
 			in.libPanic("makeslice-cap", "")
 		}
@@ -622,7 +622,7 @@ func (in *Interp) visit(fr *Frame, instr ssa.Instruction) {
 		fr.set(in, instr, copyVal(fr.get(in, instr.X).(Struct)[instr.Field]))
 	case *ssa.IndexAddr:
 		x := fr.get(in, instr.X)
-		idx := fr.get(in, instr.Index).(Sc)
+		idx := in.to64(fr.get(in, instr.Index), instr.Index.Type())
 		switch x := x.(type) {
 		case Slice:
 			i := in.concIndex(idx, x.Len, "index")
@@ -640,11 +640,11 @@ func (in *Interp) visit(fr *Frame, instr ssa.Instruction) {
 	case *ssa.Index:
 		switch x := fr.get(in, instr.X).(type) {
 		case Array:
-			i := in.concIndex(fr.get(in, instr.Index).(Sc), len(x), "index")
+			i := in.concIndex(in.to64(fr.get(in, instr.Index), instr.Index.Type()), len(x), "index")
 			fr.set(in, instr, copyVal(x[i]))
 		case Str:
 			x = in.flat(x)
-			i := in.concIndex(fr.get(in, instr.Index).(Sc), len(x.B), "index")
+			i := in.concIndex(in.to64(fr.get(in, instr.Index), instr.Index.Type()), len(x.B), "index")
 			fr.set(in, instr, x.B[i])
 		default:
 			panic(fmt.Sprintf("Index on %T", x))
@@ -738,6 +738,26 @@ func (in *Interp) concKeyEq(a, b Val) bool {
 	panic(pathEnd{"inconclusive", fmt.Sprintf("map key type %T", a)})
 }
 
+// to64 widens an index / length operand to 64 bits according to the
+// signedness of its Go type.
+func (in *Interp) to64(v Val, t types.Type) Sc {
+	s := v.(Sc)
+	if s.W == 64 {
+		return s
+	}
+	_, signed, _ := intWidth(t)
+	if s.T == nil {
+		if signed {
+			return concInt(64, uint64(sext(s.C, int(s.W))))
+		}
+		return concInt(64, s.C)
+	}
+	if signed {
+		return in.fromTerm(in.tt.SExt(s.T, 64))
+	}
+	return in.fromTerm(in.tt.ZExt(s.T, 64))
+}
+
 // concIndex bounds-checks idx against [0,n) (for make: [0,n]) exactly as the
 // compiled code would, forking into a panic path if the check can fail, and
 // concretises the in-range value.
@@ -757,7 +777,7 @@ func (in *Interp) concIndex(idx Sc, n int, what string) int {
 	}
 	t := idx.T
 	if t.W < 64 {
-		t = in.tt.ZExt(t, 64)
+		panic("concIndex: operand not widened")
 	}
 	var inRange *Term
 	if what == "makeslice" {
@@ -816,7 +836,7 @@ func (in *Interp) lookup(instr *ssa.Lookup, x, idx Val) Val {
 		return v
 	case Str:
 		x = in.flat(x)
-		i := in.concIndex(idx.(Sc), len(x.B), "index")
+		i := in.concIndex(in.to64(idx, instr.Index.Type()), len(x.B), "index")
 		return x.B[i]
 	}
 	panic(fmt.Sprintf("lookup on %T", x))
@@ -884,18 +904,13 @@ func (in *Interp) sliceOp(instr *ssa.Slice, x, lo, hi, max Val) Val {
 	}
 	// symbolic bounds: the compiled code checks 0 <= lo <= hi <= max <= cap
 	// with unsigned comparisons; fork on each check, then concretise.
-	sym := func(v Val) *Term {
+	sym := func(v Val, sv ssa.Value) *Term {
 		if v == nil {
 			return nil
 		}
-		s := v.(Sc)
-		t := in.term(s)
-		if t.W < 64 {
-			t = in.tt.ZExt(t, 64)
-		}
-		return t
+		return in.term(in.to64(v, sv.Type()))
 	}
-	tl, th, tm := sym(lo), sym(hi), sym(max)
+	tl, th, tm := sym(lo, instr.Low), sym(hi, instr.High), sym(max, instr.Max)
 	cst := func(v int) *Term { return in.tt.Const(64, uint64(v)) }
 	if tm == nil {
 		tm = cst(cp)
